@@ -7,9 +7,11 @@ package server
 import (
 	"bytes"
 	"context"
+	"encoding/base64"
 	"fmt"
 	"io"
 	"net/http"
+	"net/http/httptest"
 	"os"
 	"runtime"
 	"runtime/debug"
@@ -17,6 +19,7 @@ import (
 	"testing"
 	"time"
 
+	asset "github.com/buchgr/bazel-remote/v2/genproto/build/bazel/remote/asset/v1"
 	pb "github.com/buchgr/bazel-remote/v2/genproto/build/bazel/remote/execution/v2"
 	"google.golang.org/genproto/googleapis/bytestream"
 )
@@ -157,7 +160,7 @@ func TestVerifServerRefusedUploadLeaks(t *testing.T) {
 	defer debug.SetGCPercent(old)
 	web := vNewWeb()
 	defer web.srv.Close()
-	rec.Set("rule", "cache of 64 KiB (and the same with a hard limit) x 12 write paths x {blob larger than the cache, flipped byte, truncated, client abort}, SpliceBlob of stored chunks whose concatenation exceeds the cache: afterwards no handler goroutine, no descriptor into the cache directory, nothing reserved, directory = index (GC off)")
+	rec.Set("rule", "cache of 64 KiB (and the same with a hard limit) x 12 write paths x {blob larger than the cache, flipped byte, truncated, client abort}, SpliceBlob of stored chunks whose concatenation exceeds the cache, FetchBlob from an origin that never answers (the client gives up): afterwards no handler goroutine, no descriptor into the cache directory, nothing reserved, directory = index (GC off)")
 	paths := []string{"httpPut", "httpPutCL", "httpPutZstd", "batch", "batchZstd", "bsWrite", "bsWriteZstd", "acInline", "acInlineStdout", "fetchBlob"}
 	for _, mode := range []string{"zstd", "uncompressed"} {
 		for _, hard := range []int64{0, 64 << 10} {
@@ -258,6 +261,27 @@ func TestVerifServerRefusedUploadLeaks(t *testing.T) {
 					}
 					settle(sig)
 				}
+			}
+			// FetchBlob from an origin that accepts the request and then never answers; the client gives up
+			{
+				rec.Case()
+				stop := make(chan struct{})
+				stalled := httptest.NewServer(http.HandlerFunc(func(w http.ResponseWriter, r *http.Request) {
+					select {
+					case <-r.Context().Done():
+					case <-stop:
+					}
+				}))
+				cctx, cancel := context.WithTimeout(context.Background(), 300*time.Millisecond)
+				_, err := f.asset.FetchBlob(cctx, &asset.FetchBlobRequest{Uris: []string{stalled.URL + "/never"},
+					Qualifiers: []*asset.Qualifier{{Name: "checksum.sri", Value: "sha256-" + base64.StdEncoding.EncodeToString(make([]byte, 32))}}})
+				cancel()
+				sig := fmt.Sprintf("mode=%s hard=%d fetchBlob from a stalled origin, client deadline 300 ms -> %s", mode, hard, vGRPCCode(err))
+				rec.Note(sig)
+				rec.Distinct(fmt.Sprintf("%s:%d:stalled-origin", mode, hard))
+				settle(sig)
+				close(stop)
+				stalled.Close()
 			}
 			f.Close()
 		}
